@@ -73,6 +73,37 @@ Definition white_contempt (o : Options) (whiteMove : bool) : Z :=
 (** EngineMainThread::setupTT: number of 16-byte entries for a Hash value in MB *)
 Definition hash_entries (mb : N) : N := if mb =? 0 then 1024 else mb * 1048576 / 16.
 
+(** * The `go` parameters and the limit members of EngineControl they are turned into *)
+Record GoParams := mkGo {
+  g_depth : Z; g_mate : Z; g_nodes : Z; g_movetime : Z;     (* 0 = not given *)
+  g_clock : option (Z * Z);     (* (minTimeLimit, maxTimeLimit) the clock branch of computeTimeLimit yields
+                                   for wtime/btime/winc/binc/movestogo (time management: property C06) *)
+  g_infinite : bool; g_ponder : bool;
+  g_searchmoves : list N
+}.
+Definition default_go : GoParams := mkGo 0 0 0 0 None false false [].
+
+Record Limits := mkLimits {
+  l_minTime : Z; l_maxTime : Z; l_earlyStop : Z; l_maxDepth : Z; l_maxNodes : Z;
+  l_ponder : bool; l_infinite : bool; l_searchMoves : list N
+}.
+
+(** EngineControl::computeTimeLimit + the assignments of startSearch/startPonder.  [resets]: the
+    code assigns every member ([maxNodes = -1] included) before looking at the parameters. *)
+Definition compute_limits (resets : bool) (old : option Limits) (g : GoParams) : Limits :=
+  let mn0 := if resets then (-1)%Z else match old with Some l => l_maxNodes l | None => (-1)%Z end in
+  let md := if g_infinite g then (-1)%Z
+            else let d := if (0 <? g_depth g)%Z then g_depth g else (-1)%Z in
+                 if (0 <? g_mate g)%Z then (if (d =? -1)%Z then (g_mate g * 2 - 1)%Z else Z.min d (g_mate g * 2 - 1))%Z else d in
+  let mn := if g_infinite g then mn0 else if (0 <? g_nodes g)%Z then g_nodes g else mn0 in
+  let '(mint, maxt, es) :=
+    if g_infinite g then ((-1)%Z, (-1)%Z, (-1)%Z)
+    else if (0 <? g_movetime g)%Z then (g_movetime g, g_movetime g, 10000%Z)
+    else match g_clock g with Some (a, b) => (a, b, (-1)%Z) | None => ((-1)%Z, (-1)%Z, (-1)%Z) end in
+  mkLimits mint maxt es md mn (g_ponder g)
+           (if g_ponder g then false else (maxt <? 0)%Z && (md <? 0)%Z && (mn <? 0)%Z)
+           (g_searchmoves g).
+
 (** * The persistent state *)
 Record State := mkState {
   st_tt : TT;
@@ -83,14 +114,17 @@ Record State := mkState {
   st_matCache : smap N;           (* Evaluate::materialHash: a pure function of the material id *)
   st_opts : Options;
   st_randomSeed : N;
-  st_requiredTime : Z             (* function-local static in TranspositionTable::updateTB *)
+  st_requiredTime : Z;            (* function-local static in TranspositionTable::updateTB *)
+  st_limits : option Limits       (* EngineControl::{min,max}TimeLimit, earlyStopPercentage, maxDepth, maxNodes,
+                                     ponder, infinite, searchMoves: members that survive between go commands;
+                                     None = no go yet (the members are uninitialised in a fresh engine) *)
 }.
 
 (** a freshly started engine after the EngineControl constructor ran (Hash listener called) *)
 Definition fresh_tt : TT :=
   mkTT [] 0 (hash_entries 16) (hash_entries 16) None 0%Z 0.
 Definition fresh : State :=
-  mkState fresh_tt hist_init killers_clear false [] [] default_options 0 3000%Z.
+  mkState fresh_tt hist_init killers_clear false [] [] default_options 0 3000%Z None.
 
 (** * Commands *)
 Record SearchCmd := mkSearchCmd {
@@ -99,7 +133,8 @@ Record SearchCmd := mkSearchCmd {
   sc_limited : bool;        (* maxDepth >= 0 or maxNodes >= 0: depth- or node-limited *)
   sc_infinite : bool;       (* EngineControl::infinite *)
   sc_tbkind : option N;     (* root position suitable for on-demand TB generation: material class *)
-  sc_maxTime : Z            (* maxTimeMillis handed to updateTB *)
+  sc_maxTime : Z;           (* maxTimeMillis handed to updateTB *)
+  sc_go : GoParams          (* the parameters of the go command *)
 }.
 
 Inductive Write :=
@@ -139,7 +174,9 @@ Record View := mkView {
   v_evalStale : list (N * (N * Z));   (* cache entries computed under another contempt *)
   v_opts : Options;
   v_seed : option N;
-  v_tbctl : option (Z * Z)      (* notUsedCnt, requiredTime: read by updateTB (unlimited searches only) *)
+  v_tbctl : option (Z * Z);     (* notUsedCnt, requiredTime: read by updateTB (unlimited searches only) *)
+  v_limits : Limits             (* the limits the search runs with: computeTimeLimit applied to the go parameters
+                                   (and, if some member is not assigned on every go, to what an earlier go left) *)
 }.
 
 Section Model.
@@ -157,7 +194,8 @@ Section Model.
             else filter (fun p => negb (snd (snd p) =? w)%Z) (st_evalCache s))
            (st_opts s)
            (if weak (st_opts s) then Some (st_randomSeed s) else None)
-           (if sc_limited c then None else Some (notUsedCnt (st_tt s), st_requiredTime s)).
+           (if sc_limited c then None else Some (notUsedCnt (st_tt s), st_requiredTime s))
+           (compute_limits (go_resets_limits V) (st_limits s) (sc_go c)).
 
   (** the search oracle: writes and UCI output as a function of command, nondeterministic
       input and view *)
@@ -167,25 +205,25 @@ Section Model.
     match x with
     | WInsert key move score type ply depth ev busy =>
         mkState (tt_insert (st_tt s) key move score type ply depth ev busy) (st_hist s) (st_killers s)
-                (st_clearHistory s) (st_evalCache s) (st_matCache s) (st_opts s) (st_randomSeed s) (st_requiredTime s)
+                (st_clearHistory s) (st_evalCache s) (st_matCache s) (st_opts s) (st_randomSeed s) (st_requiredTime s) (st_limits s)
     | WProbe key =>
         mkState (fst (tt_probe (st_tt s) key)) (st_hist s) (st_killers s)
-                (st_clearHistory s) (st_evalCache s) (st_matCache s) (st_opts s) (st_randomSeed s) (st_requiredTime s)
+                (st_clearHistory s) (st_evalCache s) (st_matCache s) (st_opts s) (st_randomSeed s) (st_requiredTime s) (st_limits s)
     | WHistSuccess p sq d =>
         mkState (st_tt s) (hist_addSuccess (st_hist s) p sq d) (st_killers s)
-                (st_clearHistory s) (st_evalCache s) (st_matCache s) (st_opts s) (st_randomSeed s) (st_requiredTime s)
+                (st_clearHistory s) (st_evalCache s) (st_matCache s) (st_opts s) (st_randomSeed s) (st_requiredTime s) (st_limits s)
     | WHistFail p sq d =>
         mkState (st_tt s) (hist_addFail (st_hist s) p sq d) (st_killers s)
-                (st_clearHistory s) (st_evalCache s) (st_matCache s) (st_opts s) (st_randomSeed s) (st_requiredTime s)
+                (st_clearHistory s) (st_evalCache s) (st_matCache s) (st_opts s) (st_randomSeed s) (st_requiredTime s) (st_limits s)
     | WKiller ply m =>
         mkState (st_tt s) (st_hist s) (killers_add (st_killers s) ply m)
-                (st_clearHistory s) (st_evalCache s) (st_matCache s) (st_opts s) (st_randomSeed s) (st_requiredTime s)
+                (st_clearHistory s) (st_evalCache s) (st_matCache s) (st_opts s) (st_randomSeed s) (st_requiredTime s) (st_limits s)
     | WEval idx data =>
         mkState (st_tt s) (st_hist s) (st_killers s)
-                (st_clearHistory s) (sset (st_evalCache s) idx (data, w)) (st_matCache s) (st_opts s) (st_randomSeed s) (st_requiredTime s)
+                (st_clearHistory s) (sset (st_evalCache s) idx (data, w)) (st_matCache s) (st_opts s) (st_randomSeed s) (st_requiredTime s) (st_limits s)
     | WMat idx data =>
         mkState (st_tt s) (st_hist s) (st_killers s)
-                (st_clearHistory s) (st_evalCache s) (sset (st_matCache s) idx data) (st_opts s) (st_randomSeed s) (st_requiredTime s)
+                (st_clearHistory s) (st_evalCache s) (sset (st_matCache s) idx data) (st_opts s) (st_randomSeed s) (st_requiredTime s) (st_limits s)
     end.
 
   (** EngineControl::startThread (setWhiteContempt, nextGeneration rule), then
@@ -198,17 +236,21 @@ Section Model.
     let '(t, rt) := if sc_limited c then (t, st_requiredTime s)
                     else tt_updateTB (tbabort_drops_tb V) t (st_requiredTime s) (sc_tbkind c) (sc_maxTime c) genOK maxTAfter in
     mkState t (hist_reScale (st_hist s)) killers_clear (st_clearHistory s) (st_evalCache s)
-            (st_matCache s) (st_opts s) (st_randomSeed s) rt.
+            (st_matCache s) (st_opts s) (st_randomSeed s) rt (st_limits s).
 
   Definition set_clearHistory (s : State) (b : bool) : State :=
     mkState (st_tt s) (st_hist s) (st_killers s) b (st_evalCache s) (st_matCache s) (st_opts s)
-            (st_randomSeed s) (st_requiredTime s).
+            (st_randomSeed s) (st_requiredTime s) (st_limits s).
+
+  Definition set_limits (s : State) (l : Limits) : State :=
+    mkState (st_tt s) (st_hist s) (st_killers s) (st_clearHistory s) (st_evalCache s) (st_matCache s) (st_opts s)
+            (st_randomSeed s) (st_requiredTime s) (Some l).
 
   (** the "Clear Hash" listener of EngineControl *)
   Definition clear_hash (s : State) : State :=
     mkState (tt_clear (clear_resets_generation V) (st_tt s)) hist_init (st_killers s) true
             (if clear_clears_evalcache V then [] else st_evalCache s)
-            (st_matCache s) (st_opts s) (st_randomSeed s) (st_requiredTime s).
+            (st_matCache s) (st_opts s) (st_randomSeed s) (st_requiredTime s) (st_limits s).
 
   (** Parameters::set + listeners: only the Hash listener (setupTT) touches the state *)
   Definition set_option (s : State) (k : Opt) (v : Z) : State :=
@@ -218,7 +260,7 @@ Section Model.
              | _ => st_tt s
              end in
     mkState t (st_hist s) (st_killers s) (st_clearHistory s) (st_evalCache s) (st_matCache s) o
-            (st_randomSeed s) (st_requiredTime s).
+            (st_randomSeed s) (st_requiredTime s) (st_limits s).
 
   (** a fresh process in which the options [os] were set before anything else *)
   Definition init (os : list (Opt * Z)) : State :=
@@ -231,11 +273,12 @@ Section Model.
         let w := white_contempt (st_opts s) (sc_white c) in
         let s1 := search_prologue s c genOK maxTAfter in
         let s2 := fold_left (apply_write w) ws s1 in
-        set_clearHistory s2 false                       (* EngineMainThread::doSearch *)
+        set_limits (set_clearHistory s2 false)          (* EngineMainThread::doSearch *)
+                   (compute_limits (go_resets_limits V) (st_limits s) (sc_go c))   (* startSearch / startPonder *)
     | SetOption k v => set_option s k v
     | UciNewGame seed =>
         clear_hash (mkState (st_tt s) (st_hist s) (st_killers s) (st_clearHistory s) (st_evalCache s)
-                            (st_matCache s) (st_opts s) seed (st_requiredTime s))
+                            (st_matCache s) (st_opts s) seed (st_requiredTime s) (st_limits s))
     | ClearHash => clear_hash s
     end.
 
